@@ -213,9 +213,15 @@ class Index(object):
             if kind == "page":
                 return _report(t.add_page(op[1], crawled=op[2]))
             if kind == "pages":
+                if len(op[1]) % 2 == 1:
+                    return _report(t.add_pages(iter(list(op[1])), crawled=op[2]))
                 return _report(t.add_pages(list(op[1]), crawled=op[2]))
             if kind == "links":
-                return _report(t.add_links([(s, d) for s, d in op[1]]))
+                pairs = [(s, d) for s, d in op[1]]
+                if len(pairs) % 2 == 1:
+                    # the API takes any iterable of pairs: odd-sized requests travel as a one-shot generator
+                    return _report(t.add_links((p_ for p_ in pairs)))
+                return _report(t.add_links(pairs))
             if kind == "batch":
                 data = {}
                 for s, ts in op[1]:
@@ -226,12 +232,18 @@ class Index(object):
             if kind == "create":
                 return _report(t.create_webentity(list(op[1])))
             if kind == "delete":
+                if len(op) > 3 and op[3] == "unchecked":
+                    # check_for_corruption=False: the webentity id is documented as ignored
+                    return Outcome("ok", ret=t.delete_webentity(op[1], list(op[2]), check_for_corruption=False))
                 return Outcome("ok", ret=t.delete_webentity(op[1], list(op[2])))
             if kind == "addprefix":
                 return Outcome("ok", ret=t.add_prefix_to_webentity(op[1], op[2]))
             if kind == "rmprefix":
                 return Outcome("ok", ret=t.remove_prefix_from_webentity(op[1], op[2]))
             if kind == "move":
+                if len(B(op[1])) % 2 == 1:
+                    # the explicit alias, with keyword arguments
+                    return Outcome("ok", ret=t.move_prefix_to_webentity_from_webentity(op[1], weid_target=op[2], weid_source=op[3]))
                 return Outcome("ok", ret=t.move_prefix_to_webentity(op[1], op[2], op[3]))
             if kind == "rule":
                 out = _report(t.add_webentity_creation_rule(op[1], RULES[op[2]]))
